@@ -119,7 +119,28 @@ func (p c18) Run(c *fw.Case) {
 	if c.Idx%3 == 2 {
 		draft = gen.D7
 	}
-	doc := gen.Schema(r, gen.SchemaOpts{Draft: draft, MaxDepth: 2 + r.IntN(2), Refs: r.IntN(2) == 0, Uneval: true, NoMeta: true})
+	var doc any
+	var unevalInsts []any
+	if c.Idx%4 == 3 {
+		// the dedicated unevaluated* workload: annotation-sensitive schemas (contains, prefixItems, applicators) over tiny pools
+		draft = gen.D2020
+		d, array := gen.UnevalSchema(r)
+		doc = d
+		all := gen.UInstances(array)
+		for _, i := range r.Perm(len(all))[:12] {
+			unevalInsts = append(unevalInsts, all[i])
+		}
+	} else {
+		doc = gen.Schema(r, gen.SchemaOpts{Draft: draft, MaxDepth: 2 + r.IntN(2), Refs: r.IntN(2) == 0, Uneval: true, NoMeta: true})
+	}
+	// write half of the `true` subschemas as {} (same meaning): object nodes can carry decorations, and an implementation
+	// that special-cases the EMPTY schema sees {} and {"title":"t"} differently
+	doc = mapSchemas(doc, nil, func(n any, p []string) any {
+		if b, ok := n.(bool); ok && b && len(p) > 0 && r.IntN(2) == 0 {
+			return map[string]any{}
+		}
+		return n
+	})
 	dm, ok := doc.(map[string]any)
 	if !ok {
 		dm = map[string]any{}
@@ -142,6 +163,9 @@ func (p c18) Run(c *fw.Case) {
 		return
 	}
 	insts := gen.Instances(r, dm, 12, false)
+	if unevalInsts != nil {
+		insts = unevalInsts
+	}
 	base := make([]bool, len(insts))
 	texts := make([]string, len(insts))
 	for i, im := range insts {
@@ -169,10 +193,17 @@ func (p c18) Run(c *fw.Case) {
 		}
 	}
 	paths := schemaNodes(gen.Parse(baseText))
-	var objPaths []string
+	var objPaths, emptyPaths []string
 	parsed := gen.Parse(baseText)
 	mapSchemas(parsed, nil, func(n any, pth []string) any {
-		if _, ok := n.(map[string]any); ok {
+		if m, ok := n.(map[string]any); ok {
+			if len(m) == 0 {
+				esc := make([]string, len(pth))
+				for i, s := range pth {
+					esc[i] = ptrEscape(s)
+				}
+				emptyPaths = append(emptyPaths, "/"+strings.Join(esc, "/"))
+			}
 			esc := make([]string, len(pth))
 			for i, s := range pth {
 				esc[i] = ptrEscape(s)
@@ -187,12 +218,16 @@ func (p c18) Run(c *fw.Case) {
 	})
 	_ = paths
 	sortStringsInPlace(objPaths)
+	sortStringsInPlace(emptyPaths)
 	for variant := 0; variant < 5; variant++ {
 		decs := p.decorations(c, draft)
 		// choose target object nodes
 		targets := map[string][]decoration{}
 		for _, d := range decs {
 			t := objPaths[r.IntN(len(objPaths))]
+			if len(emptyPaths) > 0 && r.IntN(10) < 4 {
+				t = emptyPaths[r.IntN(len(emptyPaths))] // decorate an empty schema object
+			}
 			targets[t] = append(targets[t], d)
 		}
 		decorated := mapSchemas(gen.Parse(baseText), nil, func(n any, pth []string) any {
